@@ -16,6 +16,90 @@ type framePlan struct {
 	Kind     string         `json:"kind"`
 	CemiKind string         `json:"cemi_kind,omitempty"`
 	Frame    *common.RFrame `json:"frame"`
+	// Prev: a frame of the same shape decoded into the same destination first (a receive loop that reuses its
+	// variables); what Frame decodes to must not depend on it, and the value decoded from Prev must stay what it was
+	Prev *common.RFrame `json:"prev,omitempty"`
+}
+
+type bodyUnpacker interface {
+	Unpack([]byte) (uint, error)
+}
+
+func payloadOf(s knxnet.Service) cemi.Message {
+	switch v := s.(type) {
+	case *knxnet.TunnelReq:
+		return v.Payload
+	case *knxnet.RoutingInd:
+		return v.Payload
+	}
+	return nil
+}
+
+// c02Reuse: the decode-first half with a used destination.
+func c02Reuse(p framePlan) *common.Fail {
+	what := p.Kind + "/" + p.CemiKind
+	prevRef, _ := common.RefEncode(p.Prev)
+	ref, _ := common.RefEncode(p.Frame)
+	var fresh, used knxnet.Service
+	if _, err := knxnet.Unpack(ref, &fresh); err != nil {
+		return nil
+	}
+	if _, err := knxnet.Unpack(prevRef, &used); err != nil || reflect.TypeOf(used) != reflect.TypeOf(fresh) {
+		return nil
+	}
+	want := common.Show(fresh)
+	// the service value filled again through its own Unpack method
+	keep := payloadOf(used) // what the application took out of the first decode
+	keepShow := common.Show(keep)
+	if u, ok := used.(bodyUnpacker); ok && len(ref) >= 6 {
+		if _, err := u.Unpack(ref[6:]); err != nil {
+			return common.Failf("reused-destination", "%s: %x decodes into a zero value, but into a value that held the decode of %x it fails: %v", what, ref, prevRef, err)
+		}
+		if got := common.Show(used); got != want {
+			return common.Failf("reused-destination", "%s: %x decoded into a value that held the decode of %x gives %s\n into a zero value %s", what, ref, prevRef, got, want)
+		}
+		if keep != nil && common.Show(keep) != keepShow {
+			return common.Failf("earlier-value-changed", "%s: the message decoded from %x (%s) became %s when %x was decoded into the same service value", what, prevRef, keepShow, common.Show(keep), ref)
+		}
+	}
+	if !common.CarriesCemi(p.Kind) || p.Frame.Cemi == nil || p.Prev.Cemi == nil {
+		return nil
+	}
+	cb, _ := common.RefEncodeCemi(p.Frame.Cemi)
+	pb, _ := common.RefEncodeCemi(p.Prev.Cemi)
+	var f2 cemi.Message
+	if _, err := cemi.Unpack(cb, &f2); err != nil {
+		return nil
+	}
+	want = common.Show(f2)
+	// cemi.Unpack into the same Message variable
+	var m cemi.Message
+	if _, err := cemi.Unpack(pb, &m); err != nil {
+		return nil
+	}
+	keep, keepShow = m, common.Show(m)
+	if _, err := cemi.Unpack(cb, &m); err != nil {
+		return common.Failf("reused-destination", "%s: cemi.Unpack of %x into a variable that held the decode of %x fails: %v", what, cb, pb, err)
+	}
+	if got := common.Show(m); got != want {
+		return common.Failf("reused-destination", "%s: cemi.Unpack of %x into a variable that held the decode of %x gives %s\n into a nil variable %s", what, cb, pb, got, want)
+	}
+	if common.Show(keep) != keepShow {
+		return common.Failf("earlier-value-changed", "%s: the message decoded from %x (%s) became %s when %x was decoded into the same variable", what, pb, keepShow, common.Show(keep), cb)
+	}
+	// the message body filled again through its own Unpack method
+	var m3 cemi.Message
+	if _, err := cemi.Unpack(pb, &m3); err == nil && m3.MessageCode() == f2.MessageCode() && len(cb) >= 1 {
+		if u, ok := m3.(bodyUnpacker); ok {
+			if _, err := u.Unpack(cb[1:]); err != nil {
+				return common.Failf("reused-destination", "%s: the body of %x decodes into a zero %T, but into one that held the body of %x it fails: %v", what, cb, m3, pb, err)
+			}
+			if got := common.Show(m3); got != want {
+				return common.Failf("reused-destination", "%s: the body of %x decoded into a %T that held the body of %x gives %s\n into a zero value %s", what, cb, m3, pb, got, want)
+			}
+		}
+	}
+	return nil
 }
 
 type cell struct{ kind, cemiKind string }
@@ -37,7 +121,11 @@ func c02Cells() []cell {
 
 func genFramePlan(rt *rapid.T, cells []cell) framePlan {
 	c := cells[rapid.IntRange(0, len(cells)-1).Draw(rt, "cell")]
-	return framePlan{Kind: c.kind, CemiKind: c.cemiKind, Frame: common.GenFrame(rt, c.kind, c.cemiKind)}
+	p := framePlan{Kind: c.kind, CemiKind: c.cemiKind, Frame: common.GenFrame(rt, c.kind, c.cemiKind)}
+	if rapid.IntRange(0, 2).Draw(rt, "used-destination") == 0 {
+		p.Prev = common.GenFrame(rt, c.kind, c.cemiKind)
+	}
+	return p
 }
 
 func messageCode(s knxnet.Service) (cemi.MessageCode, bool) {
@@ -113,6 +201,9 @@ func c02Run(p framePlan) *common.Fail {
 					p.Kind, p.CemiKind, before, after, re, knxnet.AllocAndPack(pk))
 			}
 		}
+	}
+	if p.Prev != nil {
+		return c02Reuse(p)
 	}
 	return nil
 }
